@@ -283,6 +283,7 @@ def tasks(tier):
         for unchecked in (False, True):
             out.append(task(MOD, 'run_gen_funcs', P, label=f'func/all/w{w}/u{int(unchecked)}', w=w, unchecked=unchecked, cost=8))
     if tier == 'quick':
+        out.append(task(MOD, 'run_calls', P, label='call/all/w2/u1', w=2, unchecked=True, tier=tier, cost=25))      # C15: calls and builtins are not run-time checks
         out.append(task(MOD, 'run_calls', P, label='call/all/w3/u0', w=3, unchecked=False, tier=tier, cost=25))
         out.append(task(MOD, 'run_gen_funcs', P, label='func/all/w3/u0', w=3, unchecked=False, cost=8))
     return out
